@@ -954,7 +954,7 @@ pub fn run_dacts(node: &mut Node, ds: &[DAct]) {
                         wd.roots.borrow_mut().push(h);
                         let nr = wd.roots.borrow().len();
                         crate::consume::apply(&Op::TryUnwrap(sel_for(nr - 1, nr)));
-                    } else if *k & 3 == 2 && wd.cfg.dtor_stash && (outsider || wd.model.borrow().objs[t as usize].st != St::Alive) {
+                    } else if (*k & 3 == 2 || (*k & 1 == 0 && shared().enabled_views & View::Abort.bit() != 0)) && wd.cfg.dtor_stash && (outsider || wd.model.borrow().objs[t as usize].st != St::Alive) {
                         // the destructor moves the handle out of its value and hands
                         // it to the program instead of dropping it
                         let h = node.slots.borrow_mut().remove(j);
@@ -1538,6 +1538,25 @@ fn drain_dead_stash() {
         if !wd.model.borrow().wroots.contains(&h.target) {
             std::mem::forget(h);
             continue;
+        }
+        if shared().enabled_views & View::Abort.bit() != 0 && (wd.layout_lo.get() >> 45) & 1 == 1 {
+            // C16: the program clones the handle instead, after the collection
+            // that destroyed its object has returned: the process has to end
+            label(lab::DEAD_CLONE);
+            label(lab::DEAD_CLONE_UNINIT);
+            let t = h.target;
+            exec::set_msg(&format!("clone, after the teardown, of a handle to destroyed object {} that a destructor had moved out of its value", t));
+            shared().expect_abort = 1;
+            let r = catch_unwind(AssertUnwindSafe(|| lib(|| Rc::clone(&*h.h))));
+            shared().after_abort = 1;
+            match r {
+                Ok(c) => std::mem::forget(c),
+                Err(e) => {
+                    std::mem::forget(e);
+                    violate(View::Abort, &format!("cloning, after the teardown, a handle to destroyed object {} panicked ({}) instead of terminating the process", t, take_panic_loc()));
+                }
+            }
+            violate(View::Abort, &format!("cloning, after the teardown, a handle to already destroyed object {} (kept allocated by a Weak) returned normally instead of aborting", t));
         }
         label(lab::DEAD_HANDLE_DROPPED_LATER);
         exec::set_msg(&format!("drop, after the teardown, of a handle to destroyed object {} that a destructor had moved out of its value", h.target));
